@@ -38,6 +38,29 @@
 (* lookup of the machine (Body in Envelope, ArtifactResponse in Body,      *)
 (* Response in the verified ArtifactResponse) says WHICH element it finds. *)
 (*                                                                         *)
+(* ACCEPTABILITY (validateAssertion) is an attribute of an assertion node: *)
+(* acc = "ok" | "notForThisSP" (Recipient / audience of another service    *)
+(* provider) | "expired" (an old login).  The attacker holds, besides the  *)
+(* message, assertions the IdP GENUINELY signed that this SP does not      *)
+(* accept (B1: issued for another SP, B2: expired) and places sequences of  *)
+(* them and of forged assertions next to / instead of the assertion of the *)
+(* message (production Siblings).  parseAssertion is three stages in the   *)
+(* code's order - signature (when still required), unmarshal,              *)
+(* validateAssertion - and the loop over the candidates passes the         *)
+(* requirement BY VALUE: what one assertion's signature proves says        *)
+(* nothing about its siblings.  The properties do not read acc: whatever   *)
+(* is returned must be covered by a trusted signature.                     *)
+(*                                                                         *)
+(* CERTIFICATES are more than keys: a certificate has a public key         *)
+(* (CertKey), a subject (Subj) and possibly a SubjectKeyIdentifier (Ski).  *)
+(* Kidp1k is a certificate for the key of Kidp1 that carries a key         *)
+(* identifier; Klook is a LOOK-ALIKE made by the attacker: his own key,    *)
+(* subject and key identifier copied from Kidp1k (both are public).  The   *)
+(* machine compares CERTIFICATES with the roots (goxmldsig: Equal) and     *)
+(* verifies under the certificate's KEY; the properties ask for a          *)
+(* signature that verifies under the key of a certificate in               *)
+(* TrustedKeys(cfg), which is read from the SP configuration only.         *)
+(*                                                                         *)
 (* Deviations (constant): names of deliberate departures of the MACHINE    *)
 (* from the code, {} in every registered configuration.  Switching one on  *)
 (* gives the model-level image of a defect, and TLC then refutes the       *)
@@ -47,6 +70,12 @@
 (*  - ResponseFromDocumentRoot: the Response handed to parseResponse is    *)
 (*    the first element named Response in the DOCUMENT, not the child of   *)
 (*    the ArtifactResponse whose signature was verified                    *)
+(*  - SignedSiblingVouches: an assertion signature that verified switches  *)
+(*    the requirement off for the assertions processed after it (even when *)
+(*    validateAssertion then rejects the signed one)                       *)
+(*  - LookalikeRoot: validateSignature appends the first KeyInfo           *)
+(*    certificate to the roots when a root has the same subject and the    *)
+(*    same non-empty SubjectKeyIdentifier                                  *)
 (*                                                                         *)
 (* Named deviations from the code:                                         *)
 (*  - FunctionalMachine: the SP side is deterministic, so its stages are   *)
@@ -60,28 +89,33 @@
 (*    and one Reference (validateShape never fails).                       *)
 (*  - FieldsValid: forged and edited elements carry valid Destination,     *)
 (*    InResponseTo, instants, issuer, recipient, audience (they are public *)
-(*    knowledge) - what decides is the signature logic alone.              *)
+(*    knowledge) - what decides is the signature logic alone.  (Siblings   *)
+(*    also makes forged assertions that are NOT acceptable: acc says so.)  *)
 (*                                                                         *)
-(* node = [k, id, org, ed, ns, ch, key, ref, cov, ki]                      *)
+(* node = [k, id, org, ed, ns, acc, ch, key, ref, cov, ki]                 *)
 (*   k   : Resp | Assn | Sig | Obj | Wrap | EncAssn | ArtResp              *)
 (*         | Env | Body | Hdr (soap:Envelope, soap:Body, soap:Header)      *)
 (*   id  : "R0" "A0" "T0" (IDs of the base message) | "X1" "X2" (attacker) *)
 (*         "X3" (the Response inside a forged ArtifactResponse)            *)
+(*         "B1" "B2" (other assertions the IdP signed, see OrigOther)      *)
 (*         | "-" (element without ID)                                      *)
 (*   org : "g" genuine identity content / genuine ciphertext / genuine     *)
 (*         signature;  "f" forged (attacker made)                          *)
 (*   ed  : a signed field was edited after signing                         *)
 (*   ns  : the element is in the namespace its name suggests               *)
+(*   acc : (Assn) what validateAssertion says about it: "ok" |             *)
+(*         "notForThisSP" | "expired"                                      *)
 (*   Sig : key in {"G" (the IdP's signing key of this run), Katt, Kenc},   *)
-(*         ref = referenced ID, cov = "R0"|"A0"|"T0" (genuine signature    *)
-(*         made over that base element) | "self",                          *)
+(*         ref = referenced ID, cov = "R0"|"A0"|"T0"|"B1"|"B2" (genuine    *)
+(*         signature made over that element as the IdP sent it) | "self",  *)
 (*         ki = the KeyInfo: <<>> (no KeyInfo element) or a sequence of    *)
 (*         groups; a group is <<"rsa">> (a KeyValue / RSAKeyValue element) *)
 (*         or the items of one X509Data element in order:                  *)
 (*         "self" (the signer's own certificate, as sent) | "other"        *)
 (*         (attacker certificate on a genuine signature / trusted          *)
 (*         certificate on an attacker one) | "Kidp1" "Kidp2" "Katt" "Kenc" *)
-(*         (that certificate, whoever signed) | "bad" (an X509Certificate  *)
+(*         "Kidp1k" "Klook" (that certificate, whoever signed; Klook = the *)
+(*         look-alike) | "bad" (an X509Certificate                         *)
 (*         element that holds no certificate) | "subj" (X509SubjectName)   *)
 (***************************************************************************)
 EXTENDS Integers, Sequences, FiniteSets, TLC, Json, IOUtils
@@ -93,6 +127,7 @@ CONSTANTS K,          \* attacker steps
           Prods,      \* productions the attacker uses (a subset of AllProds: the family explored)
           KISet,      \* KeyInfo variants the attacker writes
           EnvWhereSet,\* where in the SOAP envelope the attacker places elements (a subset of EnvWheres)
+          SibSeqSet,  \* the sequences of assertions the attacker places next to / instead of the message's (Siblings)
           Deviations, \* named departures of the machine from the code that are switched on ({} when registered)
           EmitMin,    \* documents with fewer attacker steps are not emitted (simulation: they are covered exhaustively)
           EmitFrom,   \* documents with n >= EmitFrom are emitted only when Chk(doc) = VERIF_SEED modulo EmitMod
@@ -106,7 +141,7 @@ Min(S) == CHOOSE x \in S : \A y \in S : x <= y
 ----------------------------------------------------------------------------
 (* trees                                                                   *)
 
-Node(k, id, org, ch) == [k |-> k, id |-> id, org |-> org, ed |-> FALSE, ns |-> TRUE, ch |-> ch,
+Node(k, id, org, ch) == [k |-> k, id |-> id, org |-> org, ed |-> FALSE, ns |-> TRUE, acc |-> "ok", ch |-> ch,
                          key |-> "-", ref |-> "-", cov |-> "-", ki |-> <<>>]
 \* a KeyInfo with one X509Data holding one item
 KI1(x)         == << <<x>> >>
@@ -171,7 +206,8 @@ Chk(t) == LET RECURSIVE S(_)
               S(i) == IF i > Len(t.ch) THEN 0 ELSE ((i + 2) * Chk(t.ch[i]) + S(i + 1)) % 7919
           IN (KCode(t.k) * 31 + (IF t.org = "g" THEN 3 ELSE 5) + (IF t.ed THEN 7 ELSE 0) + (IF t.ns THEN 0 ELSE 11)
               + (IF t.id = "X1" THEN 13 ELSE 0) + (IF t.ki = AsSent THEN 17 ELSE IF t.ki = <<>> THEN 19 ELSE 23 + 3 * Len(t.ki) + Len(t.ki[1]))
-              + (IF t.key = "Kenc" THEN 29 ELSE 0) + 37 * S(1)) % 7919
+              + (IF t.key = "Kenc" THEN 29 ELSE 0) + (IF t.acc = "ok" THEN 0 ELSE IF t.acc = "expired" THEN 41 ELSE 43)
+              + (IF t.id \in {"B1", "B2"} THEN 47 ELSE 0) + 37 * S(1)) % 7919
 
 ----------------------------------------------------------------------------
 (* base messages: what the IdP signed, in signing order A0, R0, T0 *)
@@ -182,7 +218,13 @@ OrigR(b) == Node("Resp", "R0", "g", (IF b.sigR THEN <<GSig("R0")>> ELSE <<>>) \o
 OrigT(b) == Node("ArtResp", "T0", "g", (IF b.art = "signed" THEN <<GSig("T0")>> ELSE <<>>) \o <<OrigR(b)>>)
 \* browser delivery: the Response is the document; artifact resolution: the SOAP envelope is
 BaseDoc(b) == IF b.art = "none" THEN OrigR(b) ELSE Env(<<Body(<<OrigT(b)>>)>>)
-Orig(b, e) == CASE e = "A0" -> OrigA(b) [] e = "R0" -> OrigR(b) [] e = "T0" -> OrigT(b)
+\* What the attacker holds besides the message: assertions the IdP GENUINELY signed (with the signing key of
+\* this run) that this SP does not accept now - B1 was issued for another service provider (Recipient /
+\* audience), B2 is an old login (expired).  Whoever ever received an assertion from the IdP has such material.
+OtherIDs     == {"B1", "B2"}
+OtherAcc(e)  == IF e = "B1" THEN "notForThisSP" ELSE "expired"
+OrigOther(e) == [Node("Assn", e, "g", <<GSig(e)>>) EXCEPT !.acc = OtherAcc(e)]
+Orig(b, e) == CASE e = "A0" -> OrigA(b) [] e = "R0" -> OrigR(b) [] e = "T0" -> OrigT(b) [] e \in OtherIDs -> OrigOther(e)
 \* what a genuine signature covers: the base element without that signature
 Covered(b, e) == LET o == Orig(b, e) IN [o EXCEPT !.ch = Tail(@)]
 
@@ -198,9 +240,15 @@ DeepBases == { B(TRUE, FALSE, FALSE, "none"), B(FALSE, TRUE, FALSE, "none"), B(T
 ----------------------------------------------------------------------------
 (* trust configurations *)
 
-\* certificates that exist; "bad" stands for a string that is no certificate, "-" for "not set"
-Certs == {"Kidp1", "Kidp2", "Kenc", "Katt"}
+\* certificates that exist; "bad" stands for a string that is no certificate, "-" for "not set".
+\* A certificate is more than a key.  Kidp1k: another certificate for the KEY of Kidp1, with the subject of
+\* Kidp1 and a SubjectKeyIdentifier extension (the stored certificates have none).  Klook: made by the attacker
+\* - HIS key, subject and SubjectKeyIdentifier copied from Kidp1k (both are public: they are in the metadata).
+Certs == {"Kidp1", "Kidp1k", "Kidp2", "Kenc", "Katt", "Klook"}
 Parses(x) == x \in Certs
+CertKey(x) == CASE x = "Kidp1k" -> "Kidp1" [] x = "Klook" -> "Katt" [] OTHER -> x     \* whose public key it certifies
+Subj(x)    == IF x \in {"Kidp1", "Kidp1k", "Klook"} THEN "idp1" ELSE x               \* RawSubject
+Ski(x)     == IF x \in {"Kidp1k", "Klook"} THEN "ski1" ELSE "-"                      \* SubjectKeyId ("-" = no extension)
 Range(s) == { s[i] : i \in 1..Len(s) }
 RECURSIVE Flat(_)
 Flat(ss) == IF ss = <<>> THEN <<>> ELSE Head(ss) \o Flat(Tail(ss))
@@ -239,6 +287,7 @@ GetIDPSigningCerts(md) ==
      ELSE IF \E i \in 1..Len(cs) : ~Parses(cs[i]) THEN Err           \* base64 / x509.ParseCertificate
      ELSE Ok(cs)
 
+\* the signer's certificate (what he sends as KeyInfo): the IdP's of this run, or the outsider's own
 KeyOf(s, c)  == IF s.key = "G" THEN c.g ELSE s.key
 Attacker(k)  == k \in {"Katt", "Kenc"}
 
@@ -327,6 +376,15 @@ CodeRoots(t, e, c) ==
                        \o (IF b3 THEN <<t.pin>> ELSE <<>>)            \* certs = append(certs, cert)
           IN IF certs = <<>> THEN Err ELSE Ok(certs)                  \* "saml config not set up properly"
 
+\* MemoryX509CertificateStore.Roots: what CodeRoots selected from the SP configuration, nothing else.
+\* (deviation LookalikeRoot: the first certificate of the path ./Signature/KeyInfo/X509Data/X509Certificate is
+\* appended when it "looks like a reissue" of a root - same subject, same non-empty SubjectKeyIdentifier)
+RootsUsed(rs, e, c) ==
+  LET xs == PathCerts(e, c)
+  IN IF /\ "LookalikeRoot" \in Deviations /\ xs # <<>> /\ Parses(xs[1])
+        /\ \E i \in 1..Len(rs) : Ski(rs[i]) # "-" /\ Ski(rs[i]) = Ski(xs[1]) /\ Subj(rs[i]) = Subj(xs[1])
+     THEN rs \o <<xs[1]>> ELSE rs
+
 Verify(e, c) ==
   IF DirectSigs(e) = {} THEN "absent"
   ELSE IF Cardinality(DirectSigs(e)) > 1 THEN "error"                 \* "expected at most one"
@@ -338,7 +396,7 @@ Verify(e, c) ==
         found == FindSig(e, e.id)
     IN IF cr.err THEN "error"
        ELSE IF found = <<>> THEN "error"                              \* ErrMissingSignature
-       ELSE LET roots == cr.roots                                     \* MemoryX509CertificateStore.Roots (a list)
+       ELSE LET roots == RootsUsed(cr.roots, e, c)                    \* MemoryX509CertificateStore.Roots (a list)
                 p  == found[1]
                 s  == At(e, p)
                 ki == IF p = <<dropped>> THEN <<>> ELSE s.ki             \* the KeyInfo goxmldsig unmarshals
@@ -347,9 +405,9 @@ Verify(e, c) ==
                 cert == IF ki = <<>> THEN (IF Len(roots) = 1 THEN roots[1] ELSE "nocert")     \* "Missing x509 Element"
                         ELSE IF xs = <<>> THEN "nocert"               \* "missing X509Certificate within KeyInfo"
                         ELSE xs[1]                                    \* X509Certificates[0] - the FIRST one, whatever follows
-            IN IF cert \notin Range(roots) THEN "error"               \* verifyCertificate (a "bad" one does not parse)
+            IN IF cert \notin Range(roots) THEN "error"               \* verifyCertificate: the CERTIFICATE must equal a root (a "bad" one does not parse)
                ELSE IF ~DigestOK(e, p, s, c) THEN "error"                \* digest over e minus that Signature
-               ELSE IF KeyOf(s, c) # cert THEN "error"                \* SignedInfo signature under that certificate
+               ELSE IF CertKey(KeyOf(s, c)) # CertKey(cert) THEN "error"   \* SignedInfo signature under that certificate's public KEY
                ELSE "ok"
 
 ----------------------------------------------------------------------------
@@ -358,8 +416,28 @@ Verify(e, c) ==
 Reject(step)  == [v |-> "reject", ret |-> <<>>, step |-> step]
 Accept(p)     == [v |-> "accept", ret |-> p, step |-> "Return"]
 
-\* parseAssertion: signature when still required, then the verified element is unmarshalled
-ParseAssertion(a, sigReq, c) == (sigReq => Verify(a, c) = "ok") /\ a.k = "Assn" /\ a.ns
+\* parseAssertion, its stages in the code's order; the result names the stage that refused ("ok" = returned):
+\*   SigStage      validateSignature(assertionEl) when a signature is still required
+\*   Unmarshal     the element that was just verified is read into an Assertion
+\*   ValidateStage validateAssertion: issuer, instants, InResponseTo, Recipient, audience - reads acc,
+\*                 AFTER the signature stage (an assertion the IdP signed for somebody else gets this far)
+AssnStage(a, sigReq, c) ==
+  IF sigReq /\ Verify(a, c) # "ok" THEN "SigStage"
+  ELSE IF ~(a.k = "Assn" /\ a.ns) THEN "Unmarshal"
+  ELSE IF a.acc # "ok" THEN "ValidateStage"
+  ELSE "ok"
+ParseAssertion(a, sigReq, c) == AssnStage(a, sigReq, c) = "ok"
+
+\* the two loops of parseResponse over the candidates (encrypted first, then plaintext), in order: the index of
+\* the first candidate that parseAssertion returns (0 = none).  The requirement is passed to every call BY
+\* VALUE: nothing that happens to one assertion changes it for the next.
+\* (deviation SignedSiblingVouches: a signature stage that passed switches it off for the candidates after it)
+RECURSIVE FirstGood(_, _, _, _)
+FirstGood(cand, j, sigReq, c) ==
+  IF j > Len(cand) THEN 0
+  ELSE LET st   == AssnStage(cand[j].a, sigReq, c)
+           next == IF "SignedSiblingVouches" \in Deviations /\ sigReq /\ st # "SigStage" THEN FALSE ELSE sigReq
+       IN IF st = "ok" THEN j ELSE FirstGood(cand, j + 1, next, c)
 
 KidsOf(r, kind) == SelectSeq([i \in 1..Len(r.ch) |-> i], LAMBDA i : r.ch[i].k = kind /\ r.ch[i].ns)
 
@@ -372,11 +450,11 @@ ParseResponse(r, rp, sigReq0, c) ==
       plain  == KidsOf(r, "Assn")                                     \* PlainLoop
       cand   == [j \in 1..Len(enc) |-> [p |-> <<enc[j], 1>>, a |-> r.ch[enc[j]].ch[1]]]
                 \o [j \in 1..Len(plain) |-> [p |-> <<plain[j]>>, a |-> r.ch[plain[j]]]]
-      good   == { j \in 1..Len(cand) : ParseAssertion(cand[j].a, sigReq, c) }
+      first  == FirstGood(cand, 1, sigReq, c)
   IN IF ~fields THEN Reject("Fields")
      ELSE IF rs = "error" THEN Reject("RespSig")
-     ELSE IF good = {} THEN Reject("NoValidAssertion")
-     ELSE Accept(rp \o cand[Min(good)].p)                             \* first valid one wins
+     ELSE IF first = 0 THEN Reject("NoValidAssertion")
+     ELSE Accept(rp \o cand[first].p)                                 \* first valid one wins
 
 \* The lookups.  Each returns <<>> (error) or <<path>> of the element it finds.
 \* findOneChild(parent, namespace, tag): the direct child of that name in that namespace, if there is exactly one
@@ -458,7 +536,7 @@ MoveSig == \E p \in Paths(doc) :
      IN \E q \in Paths(d1) : /\ At(d1, q).k \notin {"Sig", "EncAssn"} \cup SoapKinds
                              /\ Edit(SetAt(d1, q, [At(d1, q) EXCEPT !.ch = <<s>> \o @]))
 
-EditID == \E p \in Paths(doc) : /\ At(doc, p).id \in {"R0", "A0", "T0"}
+EditID == \E p \in Paths(doc) : /\ At(doc, p).id \in {"R0", "A0", "T0"} \cup OtherIDs
                                 /\ Edit(SetAt(doc, p, [At(doc, p) EXCEPT !.id = "X1"]))
 
 EditSignedField == \E p \in Paths(doc) :
@@ -518,6 +596,38 @@ EnvPlace == \E p \in Paths(doc), mode \in {"forge", "copy", "move"}, sameID \in 
           [] w = "body2Before"      -> Edit(top(Body2(<<x>>), bi))
           [] w = "body2After"       -> Edit(top(Body2(<<x>>), bi + 1))
 
+\* Siblings: next to (before / after) or instead of an assertion of a Response the attacker places a SEQUENCE
+\* of assertions, each plaintext or encrypted to the SP: "oNot" / "oExp" - B1 / B2 as the IdP signed them
+\* (genuinely signed, not acceptable to this SP); "fOk" - forged, unsigned, acceptable apart from the missing
+\* signature; "fNot" / "fExp" - forged and not acceptable either
+SibKinds == {"oNot", "oExp", "fOk", "fNot", "fExp"}
+SI(w, enc) == [w |-> w, enc |-> enc]
+SibItem(w) == CASE w = "oNot" -> OrigOther("B1")
+                [] w = "oExp" -> OrigOther("B2")
+                [] w = "fOk"  -> Node("Assn", "X2", "f", <<>>)
+                [] w = "fNot" -> [Node("Assn", "X2", "f", <<>>) EXCEPT !.acc = "notForThisSP"]
+                [] w = "fExp" -> [Node("Assn", "X2", "f", <<>>) EXCEPT !.acc = "expired"]
+SibNode(it) == IF it.enc THEN EncF(<<SibItem(it.w)>>) ELSE SibItem(it.w)
+Siblings == \E p \in Paths(doc), sq \in SibSeqSet, w \in {"before", "after", "replace"} :
+  LET t  == At(doc, p)
+      ns == [i \in 1..Len(sq) |-> SibNode(sq[i])]
+  IN /\ p # <<>> /\ t.k \in {"Assn", "EncAssn"}
+     /\ At(doc, SubSeq(p, 1, Len(p) - 1)).k = "Resp"
+     /\ Edit(ReplaceSeq(doc, p, CASE w = "before" -> ns \o <<t>> [] w = "after" -> <<t>> \o ns [] w = "replace" -> ns))
+
+\* the sequences: all of length 1 and 2 (SibAll), and a covering subset - [signed + unacceptable, forged +
+\* acceptable] and the mirror order, for both ways of being unacceptable, with either member encrypted (the
+\* encrypted candidates are processed before the plaintext ones whatever the document order), two signed
+\* unacceptable ones, a forged one that is unacceptable itself, and the signed unacceptable ones alone
+SibItems == { SI(w, e) : w \in SibKinds, e \in BOOLEAN }
+SibAll   == { <<a>> : a \in SibItems } \cup { <<a, b>> : a \in SibItems, b \in SibItems }
+Pl(w) == SI(w, FALSE)
+En(w) == SI(w, TRUE)
+SibCover == { <<Pl("oNot")>>, <<Pl("oExp")>>, <<En("oNot")>>,
+              <<Pl("oNot"), Pl("fOk")>>, <<Pl("fOk"), Pl("oNot")>>, <<Pl("oExp"), Pl("fOk")>>, <<Pl("fOk"), Pl("oExp")>>,
+              <<En("oNot"), Pl("fOk")>>, <<Pl("fOk"), En("oExp")>>, <<Pl("oNot"), En("fOk")>>, <<En("oExp"), En("fOk")>>,
+              <<Pl("oNot"), Pl("oExp")>>, <<Pl("oNot"), Pl("fNot")>>, <<Pl("fExp"), Pl("oExp")>> }
+
 Init == /\ base \in BaseSet
         /\ doc = BaseDoc(base)
         /\ n = 0
@@ -527,7 +637,11 @@ TreeProds == {"Forge", "StripSig", "MoveSig", "EditID", "EditSignedField", "ReSi
               "DuplicateAssertion", "RemoveUnsigned", "ReEncrypt", "WrongNamespace"}
 \* ... and on the SOAP envelope of the artifact back channel
 EnvProds == {"EnvPlace"}
+\* ... and the sibling sequences (other IdP-signed assertions the attacker holds, forged ones)
+SibProds == {"Siblings"}
 AllProds == TreeProds \cup EnvProds
+\* two steps around a sibling sequence: what else can be done to the signatures, the assertions and the Response
+SibFamily == SibProds \cup {"StripSig", "MoveSig", "ReSign", "EditSignedField", "EditID", "DuplicateAssertion", "RemoveUnsigned", "ReEncrypt"}
 \* the family that touches who signed and which certificate is named (used where the trust configuration
 \* is crossed with two attacker steps)
 KeyProds == {"StripSig", "ReSign", "EditKeyInfo", "EditSignedField", "ReEncrypt"}
@@ -544,7 +658,10 @@ KISeq     == { << <<"self", "Kidp1">> >>, << <<"Kidp1", "self">> >>, << <<"self"
                << <<"self">>, KVGroup >>, << KVGroup, <<"self">> >>,
                << <<"self">>, <<"Kidp1">> >>, << <<"Kidp1">>, <<"self">> >>, << <<"Katt">>, <<"Kidp1">> >>,
                << <<"subj">>, <<"self">> >>, << <<"self", "bad">> >>, << <<"Kenc", "Kidp1", "Katt">> >> }
-KIAll     == KINamed \cup KISeq
+\* the LOOK-ALIKE certificate (attacker's key, subject and SubjectKeyIdentifier of Kidp1k): alone, and in front of
+\* the certificate it imitates
+KILook    == { KI1("Klook"), << <<"Klook", "Kidp1k">> >> }
+KIAll     == KINamed \cup KISeq \cup KILook
 \* the sequences that are crossed with a second attacker step (two steps of the key family)
 KICross   == KINamed \cup { << <<"self", "Kidp1">> >>, << <<"Kidp1", "self">> >>, << <<"Katt">>, <<"Kidp1">> >>, << <<"self">>, KVGroup >> }
 
@@ -561,6 +678,7 @@ Next == /\ n < K
            \/ "ReEncrypt" \in Prods /\ ReEncrypt
            \/ "WrongNamespace" \in Prods /\ WrongNamespace
            \/ "EnvPlace" \in Prods /\ EnvPlace
+           \/ "Siblings" \in Prods /\ Siblings
 
 Spec == Init /\ [][Next]_vars
 
@@ -576,8 +694,12 @@ RunCfgs == { RunCfgSeq[i] : i \in 1..Len(RunCfgSeq) }
 \*                                    omitted = both uses) - never one published for encryption only.
 \* Nothing that is not a certificate is a key.  (Where both a pinned certificate and a fingerprint are set the
 \* statement does not say which wins: the union is used, which can only make the check more lenient.)
+\* TrustedKeys(t) reads the SP configuration and nothing else - no part of a message, no resemblance.
 MdSigningUse(md) == UNION { Range(md[i].certs) : i \in { j \in 1..Len(md) : md[j].use \in {"signing", ""} } }
 TrustedKeys(t) == Certs \cap (IF t.pin # "-" \/ t.fp # "-" THEN {t.pin, t.fp} ELSE MdSigningUse(t.md))
+\* "an XML signature verifying UNDER one of the IdP certificates the SP is configured to trust": made with the
+\* private key that belongs to the public key of such a certificate
+VerifiesUnderTrusted(k, t) == \E x \in TrustedKeys(t) : CertKey(x) = CertKey(k)
 
 \* a configuration under which the statement's "genuine messages are accepted" reading applies: exactly one
 \* way of naming the trusted certificate, everything in it is a certificate, the fingerprint is written the
@@ -593,8 +715,8 @@ Clean(t) == /\ AllCertsParse(t.md)
 TrustedCover(e, c) ==
   /\ e.k \in {"Assn", "Resp", "ArtResp"}
   /\ \E i \in 1..Len(e.ch) : LET s == e.ch[i]
-                             IN /\ s.k = "Sig" /\ s.ns /\ s.cov \in {"A0", "R0", "T0"}
-                                /\ KeyOf(s, c) \in TrustedKeys(c.t)
+                             IN /\ s.k = "Sig" /\ s.ns /\ s.cov \in {"A0", "R0", "T0"} \cup OtherIDs
+                                /\ VerifiesUnderTrusted(KeyOf(s, c), c.t)
                                 /\ StripSigs(e) = StripSigs(Orig(base, s.cov))
 
 \* the assertion at path p is IdP content covered by a trusted signature placed on itself
@@ -634,7 +756,7 @@ Idx == 1..Len(RunCfgSeq)
 \* Reps) and copied to the others; PredsPlain is the definition, ProjSound (checked by hand in
 \* SigTree_C01c.cfg, see fixes/C01c.md) says the two agree.
 Proj(c) == [r1 |-> GetIDPSigningCerts(c.t.md), pin |-> c.t.pin, fp |-> c.t.fp, alg |-> c.t.alg, fmt |-> c.t.fmt,
-            tk |-> TrustedKeys(c.t), clean |-> Clean(c.t), g |-> c.g]
+            tk |-> TrustedKeys(c.t), clean |-> Clean(c.t), g |-> c.g]      \* (VerifiesUnderTrusted reads tk)
 Projs  == TLCEval([i \in Idx |-> Proj(RunCfgSeq[i])])
 RepIdx == TLCEval([i \in Idx |-> Min({ j \in Idx : Projs[j] = Projs[i] })])
 Reps   == { i \in Idx : RepIdx[i] = i }
@@ -681,7 +803,7 @@ RECURSIVE J(_)
 J(t) == IF t.k = "Sig"
         THEN [k |-> "Sig", ns |-> t.ns, key |-> t.key, ref |-> t.ref, cov |-> t.cov, ki |-> t.ki,
               ch |-> [i \in 1..Len(t.ch) |-> J(t.ch[i])]]
-        ELSE [k |-> t.k, id |-> t.id, org |-> t.org, ed |-> t.ed, ns |-> t.ns,
+        ELSE [k |-> t.k, id |-> t.id, org |-> t.org, ed |-> t.ed, ns |-> t.ns, acc |-> t.acc,
               ch |-> [i \in 1..Len(t.ch) |-> J(t.ch[i])]]
 
 Seed == IF "VERIF_SEED" \in DOMAIN IOEnv THEN atoi(IOEnv.VERIF_SEED) ELSE 1
@@ -703,6 +825,7 @@ AllProps == LET ps == Preds
 
 K1 == <<"Kidp1">>
 K2 == <<"Kidp2">>
+K1k == <<"Kidp1k">>                                                   \* the certificate of that key WITH a SubjectKeyIdentifier
 \* what sp.IDPMetadata lists
 Md(m) == CASE m = "none"   -> <<>>                                    \* no KeyDescriptor at all
            [] m = "s1"     -> <<S(K1)>>                               \* one signing key
@@ -723,6 +846,8 @@ Md(m) == CASE m = "none"   -> <<>>                                    \* no KeyD
            [] m = "s1bad"  -> <<S(K1), S(<<"bad">>)>>
            [] m = "s1ebad" -> <<S(K1), E(<<"bad">>)>>
            [] m = "s2bad"  -> <<S(K2), S(<<"bad">>)>>
+           [] m = "s1k"    -> <<S(K1k)>>                              \* one signing key whose certificate carries a key identifier
+           [] m = "s1ks2e" -> <<S(K1k), S(K2), E(<<"Kenc">>)>>        \* several signing keys, one of them with a key identifier
 
 \* (1) certificates from the IdP metadata
 MdNames == <<"none", "s1", "u1", "s2", "s1s2e", "s12", "u1s2", "s1/s2", "s1e2", "s1em2", "e1", "em1",
@@ -751,14 +876,28 @@ TFp == << Fingerp("fp1-sha256:md=none", "Kidp1", "sha256", Md("none")), Fingerp(
           TC("pin1+fp1-sha256:md=s1", Md("s1"), "Kidp1", "Kidp1", "sha256", "canon"),   \* both ways at once
           TC("pin1+fp2-sha256:md=s2", Md("s2"), "Kidp1", "Kidp2", "sha256", "canon") >>
 TrustCfgs == TMd \o TPin \o TFp
+\* (4) the trusted certificate carries a SubjectKeyIdentifier extension (what openssl and most CAs emit), and the
+\*     IdP sends that certificate: from the metadata (one / several signing keys), pinned (the metadata lists
+\*     nothing / another key), by fingerprint
+TSki == << MdOnly("md:s1k", Md("s1k")), MdOnly("md:s1ks2e", Md("s1ks2e")),
+           Pinned("pin1k:md=none", "Kidp1k", Md("none")), Pinned("pin1k:md=s2", "Kidp1k", Md("s2")),
+           Fingerp("fp1k-sha256:md=none", "Kidp1k", "sha256", Md("none")) >>
+TrustCfgsAll == TrustCfgs \o TSki
 
 \* every trust configuration x the key the IdP signs with
 RECURSIVE BothKeys(_)
 BothKeys(ts) == IF ts = <<>> THEN <<>>
                 ELSE << [t |-> Head(ts), g |-> "Kidp1"], [t |-> Head(ts), g |-> "Kidp2"] >> \o BothKeys(Tail(ts))
-RunsTrust == BothKeys(TrustCfgs)
+ByName(nm) == LET i == CHOOSE j \in 1..Len(TrustCfgsAll) : TrustCfgsAll[j].name = nm IN TrustCfgsAll[i]
+\* the configurations of (4): the IdP signs with the key of Kidp1 and sends Kidp1k, or signs with Kidp2; and the two
+\* mixed runs - same key, but the certificate the IdP sends is not the one the SP holds
+RECURSIVE SkiKeys(_)
+SkiKeys(ts) == IF ts = <<>> THEN <<>>
+               ELSE << [t |-> Head(ts), g |-> "Kidp1k"], [t |-> Head(ts), g |-> "Kidp2"] >> \o SkiKeys(Tail(ts))
+RunsSki   == SkiKeys(TSki) \o << [t |-> TSki[1], g |-> "Kidp1"], [t |-> TMd[2], g |-> "Kidp1k"] >>     \* md:s1k, md:s1
+RunsTrust == BothKeys(TrustCfgs) \o RunsSki
+ASSUME TSki[1].name = "md:s1k" /\ TMd[2].name = "md:s1"
 
-ByName(nm) == LET i == CHOOSE j \in 1..Len(TrustCfgs) : TrustCfgs[j].name = nm IN TrustCfgs[i]
 \* the four configurations the attack exploration has always used, under their old names
 T1  == [ByName("md:s1") EXCEPT !.name = "T1"]
 T2  == [ByName("md:s1s2e") EXCEPT !.name = "T2"]
@@ -775,6 +914,8 @@ RunsThorough == RunsQuick \o << [t |-> T1, g |-> "Kidp2"], [t |-> FP, g |-> "Kid
 \* the envelope family: what the lookups find does not depend on the trust configuration; it is crossed
 \* with one configuration of each kind
 RunsEnv      == RunsDeep \o << [t |-> PINX, g |-> "Kidp1"] >>
+\* the look-alike family (model-level mutation test of LookalikeRoot)
+RunsLook     == SkiKeys(TSki)
 \* the fingerprint configurations (for the model-level mutation test of FingerprintAnyCert)
 RunsFp       == BothKeys(<< ByName("fp1-sha256:md=none"), ByName("fp1-sha512:md=s2") >>)
 RunsCross    == BothKeys(<< ByName("pin1:md=s2"), ByName("pin1:md=s1s2e"), ByName("fp1-sha256:md=s2"), ByName("fp1-sha512:md=s1"),
